@@ -46,6 +46,10 @@ func (p *Program) rootOK(t types.Type, x string) string {
 				continue
 			}
 			if isInterface(u) {
+				// a standalone cell of the interface type itself (captured variable, local)
+				if types.Identical(u, t) {
+					alts = append(alts, fmt.Sprintf("(= X %d)", p.typeID(u)))
+				}
 				continue
 			}
 			if containsType(u, t, 0) {
